@@ -30,6 +30,8 @@ def run(ck, progs):
                      "when the end of the list was reached; nothing but the end-of-list test and the identity tests decides that outcome")
     ck.rule("C02.9", "MPI point-to-point signatures: bytes on the send side, in the size query and on the receive side; the tag probed is the tag "
                      "sent; MPI_COMM_WORLD everywhere; asynchronous polling accepts any source; MPI_THREAD_MULTIPLE requested and tested")
+    ck.rule("C02.10", "an event travels whole: the byte count sent is (header after the preamble) + payload size for every payload size, the receiver "
+                      "derives the payload size from the received byte count by the inverse arithmetic, and nobody else rewrites lp_msg.pl_size")
     for cfg, P in progs.items():
         _sizes(ck, P, cfg)
         _prefix(ck, P, cfg)
@@ -42,6 +44,8 @@ def run(ck, progs):
         rules_mpi.check_p2p(ck, P, "C02.9")
         rules_msg.check_deferred_free(ck, P, "C02.6")
         rules_part.check_routing_users(Renamed(ck, {}), P, "C02.7")
+        from . import C11
+        C11._pl_size(Renamed(ck, {"C11.4": "C02.10"}), P, cfg)
 
 
 def _layout(P):
